@@ -117,7 +117,44 @@ func blobOf(v Value) *Blob {
 	return b
 }
 
+// jsonUnsupported: does the value contain (outside struct fields, which may be
+// unexported) a channel or a function, which encoding/json refuses to encode.
+func jsonUnsupported(v Value, depth int) bool {
+	if depth > 6 {
+		return false
+	}
+	switch x := v.(type) {
+	case ChanVal, FuncVal:
+		return true
+	case IfaceVal:
+		return x.typ != nil && jsonUnsupported(x.v, depth+1)
+	case SliceVal:
+		if x.arr == nil {
+			return false
+		}
+		arr, ok := x.arr.v.(ArrayVal)
+		if !ok {
+			return false
+		}
+		for i := 0; i < x.len; i++ {
+			if jsonUnsupported(arr.e[x.off+i], depth+1) {
+				return true
+			}
+		}
+	case ArrayVal:
+		for _, e := range x.e {
+			if jsonUnsupported(e, depth+1) {
+				return true
+			}
+		}
+	}
+	return false
+}
+
 func (m *Machine) jsonMarshal(v Value) Value {
+	if jsonUnsupported(v, 0) {
+		return TupleVal{SliceVal{}, m.newErrorValue("json: unsupported type")}
+	}
 	iv, ok := v.(IfaceVal)
 	if ok && iv.typ != nil {
 		switch x := iv.v.(type) {
